@@ -92,9 +92,12 @@ C10Step(m, o) ==
                              /\ o.args.updates[i].inc = IncMax
                              /\ \A j \in 1..(i - 1) : Addr(o.args.updates[j].id) # Addr(o.pre.id)
         rejoins == {n \in Range(Notifs(o.out)) : n.k = "Rejoin"}
+        \* the Down of the old identity is queued (or already sent); when the instance renews twice within one
+        \* call the backlog - one entry per address - only keeps the Down of the later of its former identities
+        FormerDown(x) == Addr(x.id) = Addr(o.pre.id) /\ x.st = "D" /\ x.id # o.post.id
         oldDownGossiped ==
-            \/ \E i \in DOMAIN o.hpost.upd : o.hpost.upd[i].m = DownOf(o.pre.id)
-            \/ \E i \in DOMAIN o.out : o.out[i].k = "send" /\ DownOf(o.pre.id) \in Range(o.out[i].d.mem)
+            \/ \E i \in DOMAIN o.hpost.upd : FormerDown(o.hpost.upd[i].m)
+            \/ \E i \in DOMAIN o.out : o.out[i].k = "send" /\ \E y \in Range(o.out[i].d.mem) : FormerDown(y)
         dead == IF restart THEN FALSE
                 ELSE IF HasNotif(o.out, "Defunct") THEN TRUE ELSE m.dead
         S == OSends(o.out)
